@@ -204,6 +204,8 @@ def tlc_trace(module, trace_path, known=(), timeout=900, extra_constants=None, n
         cfg.append(f" {k} = {v}")
     for inv in invariants:
         cfg.append(f"INVARIANT {inv}")
+    if "TraceView ==" in open(os.path.join(wd, module + ".tla")).read():
+        cfg.append("VIEW TraceView")
     cfg += ["CONSTRAINT ReportKF", "POSTCONDITION TraceAccepted", "CHECK_DEADLOCK FALSE"]
     with open(os.path.join(wd, "Trace.cfg"), "w") as f:
         f.write("\n".join(cfg) + "\n")
@@ -327,8 +329,12 @@ class Result:
         os.makedirs(EVIDENCE, exist_ok=True)
         with open(os.path.join(EVIDENCE, f"{self.pid}.json"), "w") as f:
             json.dump(ev, f, indent=1, default=str)
-        for name, what in sorted(self.known.items()):
-            print(f"KNOWN-FINDING: property={self.pid} {name}: {what}")
+        # every finding listed for this property is printed; whether this run
+        # actually exercised its signature is said too
+        listed, _ = load_known()
+        for name, e in sorted(listed.get(self.pid, {}).items()):
+            tag = "matched in this run" if name in self.known else "listed, signature not met in this run"
+            print(f"KNOWN-FINDING: property={self.pid} {name} ({tag}): {e['what']}")
         for d, desc in self.violations:
             print(f"VIOLATION property={self.pid} replay={d}")
             print(f"  {desc}")
